@@ -1,6 +1,8 @@
 \* C17 document layer, closed (thorough): 2 header kinds x every history of <= 3 add_* calls over the
 \* four context paragraphs and at most one focus paragraph (copyright texts of <= 3 lines x license texts
-\* of <= 3 lines over E I ID P with 3 patterns; 1..3 patterns with the simplest texts)
+\* of <= 3 lines over E I ID P with 3 patterns; 1..3 patterns with the simplest texts); one call the API REFUSES
+\* after 0..3 add_* calls (every kind), followed by add_* calls up to 3 paragraphs; refused calls among the edits of
+\* every re-parsed context-only document
 CONSTANTS
   Mode = "doc"
   Alphabet = {}
@@ -19,6 +21,11 @@ CONSTANTS
   StaleDump = FALSE
   LicMemoBySynopsis = FALSE
   ParseMemoAliased = FALSE
+  CommaSeparates = FALSE
+  RejectDrops = FALSE
+  RejAt = {0, 1, 2, 3}
+  RejThen = 3
+  RejEditAt = {0, 1, 2, 3}
 SPECIFICATION Spec
 INVARIANT DocProps
 INVARIANT HistoryKept
